@@ -9,6 +9,10 @@
          batch sizes, following the minted cursor turn after turn delivers exactly the emitted batches, once
          each, in order; resuming from the cursor of *any* turn delivers exactly the remaining ones; only the
          last body of the chain lacks a continuation sentinel.
+(c) xh : ``HttpStreamSession._resume_token`` / ``seek_to_token`` / ``_token_metadata`` (real methods): whatever a session
+         held before (own cursor, own call token from its own /init, preloaded batches, finished flag), after
+         ``seek_to_token(blob)`` its next request carries exactly the blob's cursor AND the blob's call token, so a
+         node that is cold for that stream receives a matching pair.
 """
 
 from __future__ import annotations
@@ -26,7 +30,8 @@ from vgi_rpc.metadata import STATE_KEY
 from vgi_rpc.rpc import _wire as wire
 
 PROPERTY = "C11"
-ENCODED = [cl._encode_resume_token, cl._decode_resume_token, aps._run_http_producer_turn, wire._flush_collector]
+ENCODED = [cl._encode_resume_token, cl._decode_resume_token, aps._run_http_producer_turn, wire._flush_collector,
+           cl.HttpStreamSession.seek_to_token, cl.HttpStreamSession._resume_token, cl.HttpStreamSession._token_metadata]
 _TICKS = 4
 BOUNDS = (
     "resume token: state/call byte strings <= 4 bytes, arbitrary blobs <= 8 bytes; producer: scripts of 1..%d data ticks "
@@ -34,8 +39,8 @@ BOUNDS = (
     "one optional log batch on the first tick" % _TICKS
 )
 OUTSIDE = (
-    "response compression (the codec wraps the whole IPC stream, not modelled); the HTTP client's iteration "
-    "(HttpStreamSession.__iter__/next_with_token/seek_to_token); sealing/opening of the cursor token and cross-worker "
+    "response compression (the codec wraps the whole IPC stream, not modelled); the HTTP client's read loops "
+    "(HttpStreamSession.__iter__/next_with_token: pyarrow readers; their token bookkeeping _resume_token/seek_to_token IS encoded); sealing/opening of the cursor token and cross-worker "
     "acceptance (C12/C14): the minted token is an opaque object carrying the state's cursor; real IPC framing"
 )
 ASSUMPTIONS = [
